@@ -2,6 +2,7 @@ import McpModel.Base.Proto
 import McpModel.Wire.Sse
 import McpModel.Wire.Result
 import McpModel.Wire.Spell
+import McpModel.Wire.Input
 /-!
 Driver for E2 `Wire` (C19, and the id / batch streams of C02).
 
@@ -9,7 +10,18 @@ Every harness record is one operation on one of the pure functions of the model 
 `werr`, `idecho`, `sse.*`, `c.*`, `r.*`) or one label of the `ioConn` machine (`io.*`).  The driver
 computes the model's observation in the same canonical token form and evaluates the property
 monitors on the IMPLEMENTATION's observation.  Monitors are selected by the first command-line
-argument (`C19` default, `C02`), clause texts carry the property id.
+argument (`C19` default, `C02`), clause texts carry the property id; further arguments name
+properties the same stream serves as well (`C02 C03`: the batch stream also judges the order in which
+`Read` hands the messages of a batch out, clause prefix `C03:`).
+
+Frame ops (`io.feed`, `io.rb` = readBatch alone, `h.post <stateless|stateful|sse>` = the frame as a
+POST body, `live.io <old|new>` = a real server session on an io transport, `live.cli <json|sse>` = a
+real streamable client answered with the frame) take a JSON value and an optional trailing layout
+token `L<k>` (white space the harness put into the text; not modelled).  An implementation
+observation `panic` / `hang` of any of them is a `decode_total` violation naming the reader and the
+frame.  `r.fuzz` / `r.case` are the structured decode fuzz of the protocol types (no panic; a member
+name in another case is ignored wherever a foreign member name is), `r.irm` compares
+`InputRequestMap.UnmarshalJSON` with `decodeInputRequests`.
 
 Token forms (blank-separated): JVal `z t f i<int> d<m>e<e> s<hex> a[ … ] o{ <hexkey> v … }`
 (object members sorted by key; a string or a member name may instead be `q<hex of the literal's body>`:
@@ -397,6 +409,7 @@ structure MBatch where
 
 structure DState where
   pid : String := "C19"
+  also : List String := []         -- further properties this stream serves (the batch stream: C03)
   io : IOState := {}
   -- monitor
   mwire : List JVal := []          -- frames fed, not yet taken
@@ -474,14 +487,60 @@ def nilResultViol (d : DState) (method impl : String) : Option String :=
 
 def lastTok (s : String) : String := ((words s).getLast?).getD ""
 
+/-- the trailing layout token `L<k>` of a frame op (how the harness laid the JSON text out: blanks,
+tabs, CRLF, line breaks inside — insignificant white space, which the model does not see) -/
+def stripLayout (toks : List String) : List String :=
+  match toks.getLast? with
+  | some t =>
+    if t.startsWith "L" && t.length > 1 && (t.drop 1).toString.all Char.isDigit then toks.dropLast else toks
+  | none => toks
+
+def frameOps : List String := ["io.feed", "io.rb", "h.post", "live.io", "live.cli"]
+
+/-- the monitor's "is this message that wire element" -/
+def sameMsgWire (m : Msg) (e : JVal) : Bool := validWire e && (wireDiff e (encodeMsg m)).isNone
+
+def orderClause : String := "ioConn.Read returned the messages of a batch out of the order in which they were written"
+
+def lowerB (b : UInt8) : UInt8 := if 65 ≤ b && b ≤ 90 then b + 32 else b
+
+/-- `k` is not `name` but equals it when case is ignored -/
+def caseVariant (name k : Bytes) : Bool := k != name && k.map lowerB == name.map lowerB
+
+/-- some `inputRequests` member somewhere in the value has a `null` entry -/
+partial def hasNullInputRequest : JVal → Bool
+  | .obj kvs => kvs.any (fun p =>
+      (p.1 == CallToolResult_InputRequests_name && (match p.2 with | .obj es => es.any (fun e => e.2 == .null) | _ => false)) ||
+      hasNullInputRequest p.2)
+  | .arr l => l.any hasNullInputRequest
+  | _ => false
+
+/-- the member names on the way to the node a path (child indices) points to -/
+def pathKeys : JVal → List Nat → List Bytes
+  | _, [] => []
+  | .obj kvs, i :: t => match kvs[i]? with
+    | some (k, v) => k :: pathKeys v t
+    | none => []
+  | .arr l, i :: t => match l[i]? with
+    | some v => pathKeys v t
+    | none => []
+  | _, _ => []
+
+def inputResponsesName : Bytes := [105, 110, 112, 117, 116, 82, 101, 115, 112, 111, 110, 115, 101, 115]
+
+def f32Null : String := "decode_total: InputRequestMap.UnmarshalJSON panicked on a null entry of inputRequests (nil entry dereferenced, F32)"
+
 /-! ## the engine -/
 
 def bad (d : DState) : DState × Verdict := (d, { model := "bad-op" })
 
 def stepWire (d : DState) (toks : List String) (impl : String) : DState × Verdict :=
   let itoks := words impl
+  let toks := match toks with
+    | k :: r => if frameOps.contains k then k :: stripLayout r else toks
+    | [] => toks
   match toks with
-  | ["reset"] => ({ pid := d.pid }, { model := "ok" })
+  | ["reset"] => ({ pid := d.pid, also := d.also }, { model := "ok" })
   ----------------------------------------------------------------- message codec
   | "encdec" :: r =>
     match pMsg r with
@@ -678,7 +737,9 @@ def stepWire (d : DState) (toks : List String) (impl : String) : DState × Verdi
       let model := match decodeIn sh allow j with
         | .ok cs => "ok " ++ showCList cs
         | .error e => showCErr e
-      (d, { model := model })
+      let viol := if d.pid == "C19" && impl == "panic" then
+          some (pfx d s!"decode_total: decoding the content member of a {ctx} wrapper panicked") else none
+      (d, { model := model, violated := viol })
     | _, _ => bad d
   | "c.fuzz" :: _ =>
     let viol := if impl == "panic" then some (pfx d "decode_total: content/params decoder panicked on input bytes") else none
@@ -779,7 +840,7 @@ def stepWire (d : DState) (toks : List String) (impl : String) : DState × Verdi
   ----------------------------------------------------------------- ioConn
   | ["io.new", cap] =>
     match cap.toNat? with
-    | some n => ({ pid := d.pid, io := { outCap := n } }, { model := "ok" })
+    | some n => ({ pid := d.pid, also := d.also, io := { outCap := n } }, { model := "ok" })
     | none => bad d
   | "io.feed" :: r =>
     match pJ r with
@@ -812,35 +873,59 @@ def stepWire (d : DState) (toks : List String) (impl : String) : DState × Verdi
         if bigInt idw then some (pfx d s!"batch_roundtrip: Read returned the frame's {which} element with its integer id beyond 2^53 altered (F1)")
         else some (pfx d s!"batch_roundtrip: Read returned a message whose id differs from the frame's {which} element")
       | some f => some (pfx d s!"batch_roundtrip: Read returned a message whose {f} differs from the frame's {which} element")
-    let (d1, v19, v02) : DState × Option String × Option String :=
+    if impl == "panic" || impl == "hang" then
+      -- the reader of the connection is gone (or stuck): everything after this frame is lost
+      let fr := match d.mexpect, d.mwire with
+        | [], raw :: _ => frameDesc raw
+        | _, _ => "already accepted (a queued message)"
+      let what := if impl == "panic" then "panicked" else "did not return"
+      let d1 := match d.mexpect, d.mwire with
+        | [], _ :: w => { d with mwire := w }
+        | _ :: rest, _ => { d with mexpect := rest }
+        | _, _ => d
+      let v := if d.pid == "C02" then
+          some (pfx d s!"batch_exactly_once: ioConn.Read {what} on the frame {fr}: the reader is gone, no call is answered any more")
+        else if d.pid == "C19" then some (pfx d s!"decode_total: ioConn.Read {what} on the frame {fr}")
+        else none
+      ({ d1 with io := io' }, { model := model, violated := v })
+    else
+    let (d1, v19, v02, v03) : DState × Option String × Option String × Option String :=
       match d.mexpect with
       | e :: rest =>
         -- a message of an already accepted frame
+        -- judged only when the next element written is a valid wire message (what an invalid one decodes
+        -- to is the model's business, not the order clause's)
+        let ooo := match implMsg with
+          | some m => validWire e && outOfOrder sameMsgWire (e :: rest) m
+          | none => false
         let v := match implMsg with
-          | some m => same m e "next"
+          | some m => if ooo then some (pfx d ("batch_roundtrip: " ++ orderClause)) else same m e "next"
           | none => some (pfx d "batch_roundtrip: Read failed on a message of an already accepted frame")
-        ({ d with mexpect := rest }, v, none)
+        ({ d with mexpect := rest }, v, none, if ooo then some ("C03: " ++ orderClause) else none)
       | [] =>
         match d.mwire with
-        | [] => (d, (if impl.startsWith "err eof" then none else some (pfx d "batch_roundtrip: Read returned something at the end of the input")), none)
+        | [] => (d, (if impl.startsWith "err eof" then none else some (pfx d "batch_roundtrip: Read returned something at the end of the input")), none, none)
         | raw :: w =>
           let d := { d with mwire := w }
           match frameElems raw with
-          | none => (d, none, none)
+          | none => (d, none, none, none)
           | some (elems, isBatch) =>
             let wf := wellFormedBatch d elems && !(isBatch && d.mnoBatch)
             let calls := elems.filterMap isCallW
             let hasNotif := elems.any isNotifW
             if implOK then
+              let ooo := match implMsg, elems with
+                | some m, e :: _ => validWire e && outOfOrder sameMsgWire elems m
+                | _, _ => false
               let v := match implMsg, elems with
-                | some m, e :: _ => same m e "first"
+                | some m, e :: _ => if ooo then some (pfx d ("batch_roundtrip: " ++ orderClause)) else same m e "first"
                 | _, _ => none
               let v := if v.isNone && implQ != elems.length - 1 then
                   some (pfx d s!"batch_roundtrip: Read took a frame of {elems.length} messages but queued {implQ} for the following reads")
                 else v
               let d := { d with mexpect := (elems.drop 1).take implQ }
               let d := if isBatch && calls ≠ [] then { d with mopen := d.mopen ++ [{ slots := calls.map (fun c => (c, none)), hasNotif := hasNotif }] } else d
-              (d, v, none)
+              (d, v, none, if ooo then some ("C03: " ++ orderClause) else none)
             else
               let f2 := isBatch && hasNotif && (impl.startsWith "err dup" || impl.startsWith "err seen")
               let v19 := if !wf then none
@@ -849,8 +934,10 @@ def stepWire (d : DState) (toks : List String) (impl : String) : DState × Verdi
               let v02 := if !wf then none
                 else if f2 then some (pfx d "batch_exactly_once: a well-formed batch containing a notification is rejected as a duplicate id; the read error tears the session down (F2)")
                 else some (pfx d "batch_exactly_once: a well-formed batch is rejected by Read")
-              ({ d with mexpect := (elems.drop 1).take implQ }, v19, v02)
-    let viol := if d.pid == "C02" then v02 else v19
+              ({ d with mexpect := (elems.drop 1).take implQ }, v19, v02, none)
+    -- v02 speaks of rejected frames only, v03 of accepted ones: at most one of them is set
+    let viol := if d.pid == "C02" then (if d.also.contains "C03" then v02.orElse (fun _ => v03) else v02)
+      else if d.pid == "C03" then v03 else v19
     ({ d1 with io := io' }, { model := model, violated := viol })
   | "io.write" :: r =>
     match pMsg r with
@@ -890,13 +977,117 @@ def stepWire (d : DState) (toks : List String) (impl : String) : DState × Verdi
       let viol := if d.pid == "C02" then v02 else v19
       ({ d with io := io', mopen := open' }, { model := showWriteOut out, violated := viol })
     | _ => bad d
+  ----------------------------------------------------------------- frames through the other readers
+  | "io.rb" :: r =>
+    -- readBatch on its own
+    match pJ r with
+    | some (raw, []) =>
+      let model := match readBatch raw with
+        | .ok (ms, b) => s!"ok {ms.length} {if b then "batch" else "single"}"
+        | .error e => "err " ++ showRErr e
+      let viol := if d.pid != "C19" then none
+        else if impl == "panic" then some (pfx d s!"decode_total: readBatch panicked on the frame {frameDesc raw}")
+        else if impl.startsWith "ok 0 " then
+          some (pfx d s!"batch_roundtrip: readBatch accepted the frame {frameDesc raw}, which carries no message (ioConn.Read takes msgs[0] of what it returns)")
+        else none
+      (d, { model := model, violated := viol })
+    | _ => bad d
+  | "h.post" :: path :: r =>
+    -- the frame as the body of a POST to the streamable handler (stateless / stateful) or to the
+    -- legacy SSE transport's message endpoint; observed: rejected as malformed, or anything else
+    match pJ r with
+    | some (raw, []) =>
+      let malformed := if path == "sse" then (match decodeMsg raw with | .ok _ => false | .error _ => true)
+        else (match readBatch raw with | .ok _ => false | .error _ => true)
+      let model := if malformed then "malformed"
+        else if impl == "malformed" || impl == "panic" || impl == "hang" then "accepted" else impl
+      let viol := if d.pid != "C19" then none
+        else if impl == "panic" then some (pfx d s!"decode_total: the {path} POST handler panicked on the body {frameDesc raw}")
+        else if impl == "hang" then some (pfx d s!"decode_total: the {path} POST handler did not return on the body {frameDesc raw}")
+        else none
+      (d, { model := model, violated := viol })
+    | _ => bad d
+  | "live.io" :: ver :: r =>
+    -- a real server session on an io transport (child process): initialize, the frame, a ping
+    match pJ r with
+    | some (raw, []) =>
+      let s0 : IOState := { wire := [raw], noBatch := ver == "new" }
+      let model := match (opRead false s0).2 with
+        | .msg _ => "alive"
+        | .err _ => "closed"
+      let viol := if d.pid != "C19" then none
+        else if impl == "panic" then some (pfx d s!"decode_total: a server session on an io transport panicked on the frame {frameDesc raw} (the process crashed)")
+        else if impl == "hang" then some (pfx d s!"decode_total: a server session on an io transport neither answered nor ended after the frame {frameDesc raw}")
+        else none
+      (d, { model := model, violated := viol })
+    | _ => bad d
+  | "live.cli" :: kind :: r =>
+    -- a real streamable client whose ping is answered with the frame as JSON body / as SSE event data
+    match pJ r with
+    | some (raw, []) =>
+      let model := match decodeMsg raw with
+        | .ok _ => "ok"
+        | .error _ => "error"
+      let viol := if d.pid != "C19" then none
+        else if impl == "panic" then some (pfx d s!"decode_total: the streamable client panicked on the {kind} response body {frameDesc raw} (the process crashed)")
+        else if impl == "hang" then some (pfx d s!"decode_total: the streamable client's call neither returned nor failed on the {kind} response body {frameDesc raw}")
+        else none
+      (d, { model := model, violated := viol })
+    | _ => bad d
+  ----------------------------------------------------------------- decode fuzz of the protocol types
+  | "r.fuzz" :: ty :: r =>
+    match pJ r with
+    | some (j, []) =>
+      let viol := if d.pid != "C19" || impl != "panic" then none
+        else if hasNullInputRequest j then some (pfx d f32Null)
+        else some (pfx d s!"decode_total: decoding a {ty} panicked on a near-valid JSON value (a null / wrong-typed / wrong-case member)")
+      (d, { model := "nopanic", violated := viol })
+    | _ => bad d
+  | "r.case" :: ty :: path :: key :: jr =>
+    -- one member name changed in case somewhere in a valid value of the type; the harness decodes that,
+    -- the value without the member, and the value with the member under a foreign name: where the
+    -- foreign name is ignored (a struct position) the case variant must be ignored as well
+    let model := if impl.startsWith "map" then impl else "struct same"
+    let name := ((pHexTok "s" key).bind (fun b => String.fromUTF8? (ByteArray.mk b.toArray))).getD "?"
+    let viol := if d.pid != "C19" then none
+      else if impl == "panic" then some (pfx d s!"decode_total: decoding a {ty} panicked on a value with the member {name} spelled in another case")
+      else if impl.startsWith "struct differ" then
+        let idx := (path.splitOn ".").filterMap String.toNat?
+        let above := match pJ jr with
+          | some (j, []) => (pathKeys j idx).dropLast
+          | _ => []
+        if above.contains CallToolResult_InputRequests_name || above.contains inputResponsesName then
+          some (pfx d s!"decode_case_sensitive: below inputRequests / inputResponses member names are matched without regard to case (InputRequestMap / InputResponseMap decode with encoding/json, F32): decoding a {ty} matched a member spelled {name}")
+        else
+          some (pfx d s!"decode_case_sensitive: decoding a {ty} matched a member spelled {name}, which differs in case from the declared name")
+      else none
+    (d, { model := model, violated := viol })
+  | "r.irm" :: r =>
+    match pJ r with
+    | some (j, []) =>
+      let model := match decodeInputRequests j with
+        | .ok l => " ".intercalate ("ok" :: (sortMembers (dedupLast (l.map (fun p => (p.1, JVal.str p.2))))).flatMap (fun p => [hexB p.1, showJ p.2]))
+        | .error _ => "err"
+      let entries : List JVal := match j with | .obj kvs => kvs.map (·.2) | _ => []
+      let caseVar := entries.any (fun e => match e with
+        | .obj mem => mem.any (fun p => caseVariant irmRaw_Method_name p.1 || caseVariant irmRaw_Params_name p.1)
+        | _ => false)
+      let viol := if d.pid != "C19" then none
+        else if impl == "panic" then
+          (if entries.any (· == .null) then some (pfx d f32Null)
+           else some (pfx d "decode_total: InputRequestMap.UnmarshalJSON panicked on a near-valid value"))
+        else if model == "err" && impl.startsWith "ok" && caseVar then
+          some (pfx d "decode_case_sensitive: InputRequestMap.UnmarshalJSON matched an entry member whose name differs in case from method/params (it decodes with encoding/json, F32)")
+        else none
+      (d, { model := model, violated := viol })
+    | _ => bad d
   | _ => bad d
 
-def engine (pid : String) : Engine DState where
-  init := { pid := pid }
+def engine (pid : String) (also : List String := []) : Engine DState where
+  init := { pid := pid, also := also }
   step := stepWire
 
 end Wire
 
 def main (args : List String) : IO Unit :=
-  Proto.run (Wire.engine (args.head?.getD "C19"))
+  Proto.run (Wire.engine (args.head?.getD "C19") (args.drop 1))
